@@ -435,6 +435,72 @@ def make_kills(mods):
 def check_buffer_access(chk, funcs, mods):
     n_sites = 0
     kills = make_kills(mods)
+    by_name = {}
+    for tu_, f_ in funcs:
+        by_name.setdefault(f_['name'], (tu_, f_))
+    summaries = {}
+    state = {'in_summary': False}
+
+    def predicate_summary(name):
+        """[(constant length text, parameter position, passed by value?)]: k <= <buffer parameter>.length holds at every return of a
+        non-zero constant of function `name`"""
+        if name in summaries:
+            return summaries[name]
+        summaries[name] = []
+        tu_, g = by_name[name]
+        gbody = astdb.fn_body(g)
+        params = astdb.fn_params(g)
+        bufp = {}
+        for i, p_ in enumerate(params):
+            t_ = tu_.desugar(astdb.qtype(p_)).replace('const ', '').strip()
+            if t_.rstrip(' *') in ('struct Buffer', 'Buffer'):
+                bufp[p_.get('name') + ('->' if t_.endswith('*') else '.')] = (i, not t_.endswith('*'))
+        if not bufp or gbody is None or cfg.has_goto(gbody):
+            return summaries[name]
+
+        true_rets = set()
+        n_rets = 0
+        for nd in walk(gbody):
+            if nd.get('kind') == 'ReturnStmt' and kids(nd):
+                n_rets += 1
+                v = astdb.const_int(strip(kids(nd)[0], casts=True), tu_)
+                if v is not None and v != 0:
+                    true_rets.add(id(kids(nd)[0]))
+                elif v is None:
+                    return summaries[name]      # a computed result: nothing is known when it is true
+
+        def is_true_return(nd):
+            return id(nd) in true_rets
+
+        def cf(c, truth):
+            out = []
+            if c.get('kind') == 'BinaryOperator' and c.get('opcode') in ('<', '<=', '>', '>='):
+                a_, b_ = kids(c)
+                op = c['opcode']
+                pa, pb = is_buffer_member(a_, tu_, 'length'), is_buffer_member(b_, tu_, 'length')
+                if pb is not None and pa is None:
+                    L, pref, o = len_text(a_, tu_), pb, op
+                elif pa is not None and pb is None:
+                    L, pref, o = len_text(b_, tu_), pa, {'<': '>', '<=': '>=', '>': '<', '>=': '<='}[op]
+                else:
+                    return out
+                if not re.fullmatch(r'\d+', L):
+                    return out
+                if ((o in ('<', '<=')) if truth else (o in ('>',))):
+                    out.append(('le', L, pref, frozenset({'length'})))
+                if o == '<' and truth:
+                    out.append(('le', str(int(L) + 1), pref, frozenset({'length'})))
+                if o == '>=' and not truth:
+                    out.append(('le', str(int(L) + 1), pref, frozenset({'length'})))
+            return out
+        res_ = cfg.guarded_before(gbody, is_true_return, cf, kills)
+        sets = [set((fa[1], fa[2]) for fa in (facts or ())) for _i, (nd, facts) in res_.items() if facts is not None]
+        if not sets:
+            return summaries[name]
+        common = set.intersection(*sets)
+        summaries[name] = [(L, bufp[pref][0], bufp[pref][1]) for L, pref in sorted(common) if pref in bufp]
+        return summaries[name]
+    _in_summary = False
     for tu, f in funcs:
         body = astdb.fn_body(f)
         fname = f['name']
@@ -464,6 +530,15 @@ def check_buffer_access(chk, funcs, mods):
                     out.append(le_fact(str(int(L) + 1), pref))
             if c.get('kind') == 'CallExpr' and astdb.callee_name(c) == 'bufferAtEnd' and not truth:
                 out.append(le_fact('1', buffer_prefix(astdb.call_args(c)[0], tu)))
+            elif c.get('kind') == 'CallExpr' and truth and astdb.callee_name(c) in by_name and not _in_summary:
+                # a predicate of the repository that received the buffer: what it has established about the buffer's length on every
+                # `return <true>` holds in the caller's true branch (constant lengths only)
+                for L, pos, byval in predicate_summary(astdb.callee_name(c)):
+                    args = astdb.call_args(c)
+                    if pos < len(args):
+                        a_ = strip(args[pos], casts=True)
+                        pref_ = (astdb.expr_text(a_) + '.') if byval else buffer_prefix(args[pos], tu)
+                        out.append(le_fact(L, pref_))
             return out
 
         def gen(nd, facts, tu=tu):
@@ -938,11 +1013,16 @@ def check_allocation_bounds(chk, funcs):
                                     continue
                                 cond = loop['inner'][2] if loop['kind'] == 'ForStmt' else loop['inner'][-2]
                                 for cc in _conjuncts(cond):
-                                    if cc.get('kind') == 'BinaryOperator' and cc.get('opcode') in ('<', '!=') and \
-                                            astdb.expr_text(strip(kids(cc)[0], casts=True)) == iname:
+                                    if cc.get('kind') != 'BinaryOperator' or cc.get('opcode') not in ('<', '!='):
+                                        continue
+                                    # loop condition  i + c0 < N  (c0 a constant, usually 0)
+                                    E = lin_ast(kids(cc)[0], tu)
+                                    evars = [key for key, c in E.items() if key != 1 and c]
+                                    if evars == [iname] and E[iname] == 1:
+                                        c0 = E.get(1, 0)
                                         d2 = lin_diff_const(A, lin_ast(kids(cc)[1], tu))
                                         low_ok = off >= 0 or _loop_start(loop, iname, tu) is not None and _loop_start(loop, iname, tu) + off >= 0
-                                        if d2 is not None and d2 - off >= 0 and cc['opcode'] == '<' and low_ok:
+                                        if d2 is not None and d2 + c0 - off >= 0 and cc['opcode'] == '<' and low_ok:
                                             ok = True
                                         else:
                                             why = ' (loop bound %s vs allocated count %s)' % (astdb.expr_text(kids(cc)[1]), astdb.expr_text(cnt))
